@@ -43,7 +43,8 @@ AUT *g_this, *g_ret; void *g_local, *m_this;
   __CPROVER_ensures((has_w && !w_leaf) ==> sm_w) \
   __CPROVER_ensures((rt_w && !w_leaf) ==> (w_erased && r_wc)) \
   __CPROVER_ensures(g_shortcut ? g_rem == 0 : (g_rem != 0 && BEQ(rt_w, iat_w))) \
-  __CPROVER_ensures(BEQ(ssf_w, fin_wf && r_wf))
+  __CPROVER_ensures(BEQ(ssf_w, fin_wf && r_wf)) \
+  __CPROVER_ensures(!pend_wc)
 #define P1 __CPROVER_loop_invariant(CONS && v_remaining_slot == g_rem && BEQ(r_wc, pend_wc) && (rt_w ==> w_leaf) && (sm_w ==> !w_leaf) && !w_erased)
 #define LOOPASG_RUSL__L_OWNERS , G_OWN
 #define LOOP_RUSL__L_OWNERS P1 \
